@@ -258,6 +258,7 @@ CHECKS = {
             mc("calls-optional-params", "MC_C03.tla", "MC_C03_opt2.cfg"),
             mc("calls-dropping", "MC_C03.tla", "MC_C03_drop.cfg"),
             mc("calls-two-arguments-other-type", "MC_C03.tla", "MC_C03_plen.cfg"),
+            mc("calls-three-arguments", "MC_C03.tla", "MC_C03_join3.cfg"),
             mc("calls-2", "MC_C03.tla", dict(quick=None, thorough="MC_C03_2.cfg")),
             mc("calls-3", "MC_C03.tla", dict(quick=None, thorough="MC_C03_3.cfg")),
             lang("calls", "rich", 4000, 150000, ["--nctx", "6", "--depth", "3", "--callpct", "70"], shards=SH),
@@ -276,6 +277,8 @@ CHECKS = {
             mc("matrix-chains", "MC_C04.tla", "MC_C04_logic3.cfg"),
             mc("matrix-quantifiers", "MC_C04.tla", "MC_C04_quant.cfg", workers=2),
             mc("calls-typed-absence", "MC_C03.tla", "MC_C03_0.cfg"),
+            mc("texts-literal-arguments-bytes", "MC_Text.tla", dict(quick="MC_Text_argb3.cfg", thorough="MC_Text_argb4.cfg"), workers=4),
+            mc("texts-literal-arguments-ip", "MC_Text.tla", dict(quick="MC_Text_argip3.cfg", thorough="MC_Text_argip4.cfg"), workers=4),
             lang("mutants", "rich", 5000, 200000, ["--nctx", "4", "--depth", "3", "--mutate", "60"], shards=SH),
             lang("scalar-mutants", "c01", 2000, 60000, ["--nctx", "4", "--depth", "4", "--mutate", "60"], shards=SH, seed_off=2),
         ],
@@ -370,6 +373,7 @@ CHECKS = {
         assumptions=[],
         stages=[
             mc("range-lists", "MC_C09.tla", dict(quick="MC_C09_quick.cfg", thorough="MC_C09_thorough.cfg")),
+            mc("byte-strings-of-every-length-class", "MC_C09L.tla", "MC_C09L.cfg", workers=4),
             lang("sets", "rich", 3000, 100000, ["--nctx", "8", "--depth", "1", "--setpct", "85", "--setmax", "40", "--listpct", "0", "--callpct", "5", "--nestpct", "5"], shards=SH),
         ],
     ),
